@@ -705,16 +705,35 @@ class CG:
             for o in outs[1:]:
                 res = res & o
             return res
-        # for: assignments inside do not count afterwards
-        self.emit(ind, "for it in 0 .. 2 do")
+        # loops: assignments inside do not count afterwards (the body may run zero times: `0 .. p` with p = 0, a while whose
+        # condition is false at once)
+        form = self.pick(["for it in 0 .. 2 do", "for it in 0 .. p do", "for it in 0 .. p do", "while self.z < 5 do"])
+        self.emit(ind, form)
         self.block(ind + 1, set(assigned), depth + 1)
-        self.features.add("for")
+        if form.startswith("while"):
+            self.emit(ind + 1, "self.z := 9")
+            self.features.add("while")
+        else:
+            self.features.add("for_maybe_zero_times" if "p" in form else "for")
         return assigned
 
     def block(self, ind, assigned, depth):
         for _ in range(self.i(1, 3)):
             assigned = self.stmt(ind, assigned, depth)
         return assigned
+
+    def partial(self, f):
+        """the field is assigned where that does not count: in a loop body, on one side of an if, in one arm of a match"""
+        form = self.pick(["for_p", "for_2", "while", "if_only", "if_else_one_side", "match_one_arm", "if_in_for"])
+        a = "self.%s := %s" % (f, self.pick(["1", "p", "self.z"]))
+        text = {"for_p": ["for it in 0 .. p do", "    " + a], "for_2": ["for it in 0 .. 2 do", "    " + a],
+                "while": ["while self.z < 5 do", "    " + a, "    self.z := 9"], "if_only": ["if c then", "    " + a],
+                "if_else_one_side": ["if c then", "    print(0)", "else", "    " + a],
+                "match_one_arm": ["match p", "    0 => " + a, "    _ => print(0)"],
+                "if_in_for": ["for it in 0 .. p do", "    if c then", "        " + a, "    else", "        " + a]}[form]
+        for t in text:
+            self.emit(2, t)
+        self.features.add("partial:" + form)
 
     def program(self):
         # second fault kind: one field is assigned on some paths only (or never) by the whole constructor and read afterwards
@@ -723,7 +742,10 @@ class CG:
             self.fault_slot = 10 ** 6
             leave_out = self.pick(["u", "v", "w"])
         assigned = set()
-        for _ in range(self.i(2, 5)):
+        partial_at = self.i(0, 4) if leave_out else -1
+        for k in range(self.i(2, 5)):
+            if k == partial_at:
+                self.partial(leave_out)
             assigned = self.stmt(2, assigned, 0)
         # complete the constructor: every field still missing is assigned at the end (the checker demands it)
         for f in self.FIELDS:
